@@ -85,7 +85,7 @@ def correspondence(ctx, rebound):
     rng = ctx.rng
     dist = {}
     # ---------- (a) resolve loop with arbitrary outcomes, (b) search + shuffle
-    nloop = ctx.scale(260, 3000)
+    nloop = ctx.scale(400, 4000)
     loop_terms, loop_info, search_terms, search_info = [], [], [], []
     for k in range(nloop):
         tree = rng.random() < 0.4
@@ -124,7 +124,7 @@ def correspondence(ctx, rebound):
                    "mismatching cases: %s" % [search_info[b] for b in (bad_search or [])[:2]])
 
     # ---------- (c) full search with merge
-    nm = ctx.scale(120, 1500)
+    nm = ctx.scale(160, 2000)
     mterms, minfo = [], []
     for k in range(nm):
         cfg = L.gen_cluster(rng, tree=False)
@@ -145,7 +145,7 @@ def correspondence(ctx, rebound):
                    bad_m == [], "mismatching cases: %s" % [minfo[b] for b in (bad_m or [])[:2]])
 
     # ---------- (d) full search with hardsphere
-    nh = ctx.scale(120, 1500)
+    nh = ctx.scale(160, 2000)
     hterms, hinfo = [], []
     for k in range(nh):
         cfg = L.gen_cluster(rng, tree=False)
@@ -208,12 +208,12 @@ def detect_oracle(cfg):
 
 def search_detection(ctx, rebound, fails):
     rng = ctx.rng
-    n = ctx.scale(500, 8000)
+    n = ctx.scale(900, 12000)
     for k in range(n):
         u = rng.random()
         tree = u < 0.45
         line = rng.random() < 0.3
-        cfg = L.gen_cluster(rng, tree=tree, line=line)
+        cfg = L.gen_cluster(rng, tree=tree, line=line, big=tree and rng.random() < 0.5)
         sim = L.make_sim(rebound, cfg)
         seen = {}
         def cb(sp, c, sim=sim, seen=seen):
@@ -253,7 +253,7 @@ def search_detection(ctx, rebound, fails):
                     break
         ctx.nontrivial.add(("detect", cfg["mode"], cfg["periodic"], cfg["N"], min(len(seen), 30)))
         if bad:
-            fails.append(("detect:%s:%s" % (cfg["mode"], bad[0]),
+            fails.append((linetree_key(cfg, bad[0]),
                           dict(kind="detect", cfg=cfg_replay(cfg), problem=list(map(str, bad)), reported=sorted(map(str, seen)))))
 
 
@@ -261,8 +261,10 @@ def sums(sim):
     M = Fraction(0); P = [Fraction(0)] * 3; X = [Fraction(0)] * 3
     for i in range(sim.N):
         p = sim.particles[i]
-        if p.y != p.y:      # flagged for removal (tree)
+        if p.y != p.y and all(math.isfinite(v) for v in (p.x, p.z, p.vx, p.vy, p.vz, p.m)):      # flagged for removal (tree)
             continue
+        if not all(math.isfinite(v) for v in (p.x, p.y, p.z, p.vx, p.vy, p.vz, p.m)):
+            return None
         m = Fraction(p.m)
         M += m
         P = [P[0] + m * Fraction(p.vx), P[1] + m * Fraction(p.vy), P[2] + m * Fraction(p.vz)]
@@ -279,7 +281,7 @@ def scale_of(cfg):
 
 def search_merge(ctx, rebound, fails):
     rng = ctx.rng
-    n = ctx.scale(400, 6000)
+    n = ctx.scale(800, 10000)
     for k in range(n):
         tree = rng.random() < 0.4
         cfg = L.gen_cluster(rng, tree=tree, line=rng.random() < 0.2)
@@ -289,13 +291,19 @@ def search_merge(ctx, rebound, fails):
         sim.collision_resolve = "merge"
         rebound.clibrebound.reb_collision_search(ctypes.byref(sim))
         ctx.evaluations += 1
-        M1, P1, X1 = sums(sim)
+        S1 = sums(sim)
+        M1, P1, X1 = S1 if S1 is not None else (M0, P0, X0)
         live = [sim.particles[i].hash.value for i in range(sim.N) if sim.particles[i].y == sim.particles[i].y]
         nmerged = cfg["N"] - len(live)
         sm, sv, sx = scale_of(cfg)
         eps = 2.3e-16 * 8 * (cfg["N"] + 2)
         bad = None
-        if len(set(live)) != len(live) or not set(live) <= set(range(1000, 1000 + cfg["N"])):
+        if S1 is None:
+            # 1/(m_i+m_j) with two massless particles is outside the theorem's hypothesis m_i+m_j != 0
+            if sum(1 for m in cfg["m"] if m == 0.0) >= 2:
+                continue
+            bad = "non-finite particle data after merging particles with non-zero mass sums"
+        elif len(set(live)) != len(live) or not set(live) <= set(range(1000, 1000 + cfg["N"])):
             bad = "ids duplicated or invented: %s" % live
         elif abs(M1 - M0) > Fraction(eps * sm):
             bad = "mass %r -> %r" % (float(M0), float(M1))
@@ -316,7 +324,7 @@ def search_merge(ctx, rebound, fails):
 
 def search_hardsphere(ctx, rebound, fails):
     rng = ctx.rng
-    n = ctx.scale(300, 5000)
+    n = ctx.scale(600, 8000)
     for k in range(n):
         # exactly one overlapping approaching pair (+ bystanders far away), so that each bounce can be judged alone
         cfg = L.gen_cluster(rng, n=2, periodic=False, tree=rng.random() < 0.3)
@@ -364,11 +372,23 @@ LINETREE_REPRO = dict(N=4, periodic=False, box=8.0, x=[1.7, 0.3, 1.6, 0.0], y=[0
                       mode="linetree", seed=1, t=1.0, dt=0.01)
 
 
+# backward integration: dt_last_done < 0 makes both drift terms of the LINETREE pruning radius negative
+LINETREE_BACKWARD = dict(N=4, periodic=False, box=8.0, x=[-1.4, -1.9, 0.1, -1.8], y=[-1.2, -1.0, -1.9, -0.1], z=[0.0] * 4,
+                         vx=[0.0, 3.0, 0.0, 0.0], vy=[0.0] * 4, vz=[0.0] * 4, m=[1.0] * 4, r=[0.15, 0.15, 0.0, 0.0], tree=True,
+                         keep=0, mode="linetree", seed=1, t=1.0, dt=-0.5)
+
+
+def linetree_key(cfg, what):
+    """violation key of a detection failure; LINETREE misses under backward integration are a finding of their own"""
+    back = ":backward" if (cfg["mode"] in ("line", "linetree") and cfg["dt"] < 0) else ""
+    return "detect:%s:%s%s" % (cfg["mode"], what, back)
+
+
 def search_linetree_regression(ctx, rebound, fails):
     """fixed input: two overlapping unit spheres at rest (centre distance 1.565 < 2) sharing tree cells with two point
     particles.  LINE reports the pair; LINETREE prunes with p1.r + drift + 0.866 w, i.e. without the partner's radius."""
-    def pairs(mode):
-        c = dict(LINETREE_REPRO); c["mode"] = mode; c["tree"] = mode == "linetree"
+    def pairs(mode, base=LINETREE_REPRO):
+        c = dict(base); c["mode"] = mode; c["tree"] = mode == "linetree"
         sim = L.make_sim(rebound, c)
         seen = set()
         def cb(sp, col):
@@ -384,6 +404,16 @@ def search_linetree_regression(ctx, rebound, fails):
     if frozenset((0, 1)) not in b:
         fails.append(("detect:linetree:missed", dict(kind="detect", cfg=cfg_replay(LINETREE_REPRO),
                                                      problem="LINETREE misses the overlapping pair (0,1) that LINE reports")))
+    a, b = pairs("line", LINETREE_BACKWARD), pairs("linetree", LINETREE_BACKWARD)
+    ctx.evaluations += 2
+    if frozenset((0, 1)) not in a:
+        fails.append(("detect:line:missed:backward", dict(kind="detect", cfg=cfg_replay(dict(LINETREE_BACKWARD, mode="line", tree=False)),
+                                                          problem="LINE misses the pair (0,1) whose paths cross during the last (backward) step")))
+    if frozenset((0, 1)) not in b:
+        fails.append(("detect:linetree:missed:backward",
+                      dict(kind="detect", cfg=cfg_replay(LINETREE_BACKWARD),
+                           problem="LINETREE with dt_last_done<0 misses the pair (0,1) that LINE reports (and that LINETREE "
+                                   "reports for the mirrored forward step)")))
 
 
 # ================================================================================================ entry point
@@ -414,3 +444,35 @@ def run(ctx):
         "MERCURIUS/TRACE encounter maps, MPI, OPENMP, shearing-sheet ghost boxes, track_energy_offset and N_var>0 are not modelled",
         "tree walk pruning geometry is validated by the searcher only",
     ]
+
+
+def replay(ctx, rep):
+    """./check C13 --replay FILE : rebuild the recorded configuration on the current library and show what it does"""
+    import json
+    r = rep.get("replay", {})
+    print(json.dumps({k: v for k, v in rep.items() if k != "replay"}, indent=1))
+    cfg = r.get("cfg")
+    if not cfg:
+        print(json.dumps(r, indent=1)); return 0
+    for k in ("x", "y", "z", "vx", "vy", "vz", "m", "r"):
+        cfg[k] = [float.fromhex(h) for h in cfg[k + "_hex"]]
+    rebound = load(ctx.lib())
+    sim = L.make_sim(rebound, cfg)
+    calls = []
+    if r.get("kind") == "detect":
+        def cb(sp, c):
+            s = sp.contents
+            calls.append((s.particles[c.p1].hash.value - 1000, s.particles[c.p2].hash.value - 1000, L.gb_int(s, c)))
+            return 0
+        L.search(rebound, sim, cb)
+        orc = detect_oracle(cfg)
+        print("reported:", sorted(calls))
+        print("oracle yes:", sorted(k for k, v in orc.items() if v == "yes"))
+        print("problem recorded:", r.get("problem"))
+    else:
+        before = L.state(sim)
+        sim.collision_resolve = "merge" if r.get("kind") == "merge" else "hardsphere"
+        rebound.clibrebound.reb_collision_search(ctypes.byref(sim))
+        print("before:", before); print("after :", L.state(sim), "hashes", L.hashes(sim))
+        print("problem recorded:", r.get("problem"))
+    return 1
